@@ -113,7 +113,7 @@ func checkC02(c E2ECase, st *Stats) error {
 	return err
 }
 
-var propC02 = Register(Prop[E2ECase]{ID: "C02", Name: "C02", Check: checkC02})
+var propC02 = Register(Prop[E2ECase]{ID: "C02", Name: "C02", Pending: true, Check: checkC02})
 
 func TestC02Rapid(t *testing.T) {
 	p := propC02
@@ -183,7 +183,7 @@ func checkC02Proto(c ProtoCase, st *Stats) error {
 	return err
 }
 
-var propC02Proto = Register(Prop[ProtoCase]{ID: "C02", Name: "C02svc", Check: checkC02Proto})
+var propC02Proto = Register(Prop[ProtoCase]{ID: "C02", Name: "C02svc", Pending: true, Check: checkC02Proto})
 
 func TestC02Service(t *testing.T) {
 	p := propC02Proto
